@@ -4,7 +4,7 @@ package kafka
 
 // Machine-checked contracts (govc, see /verif/DESIGN.md). Comment-only file.
 
-//@ property C13
+//@ property C13 C10
 
 //@ func murmur2
 //@   mode bv
@@ -36,6 +36,7 @@ package kafka
 //@   ensures exists k :: 0 <= k && k < len(partitions) && result == partitions[k]
 
 //@ func (*RoundRobin).Balance
+//@   option sequential
 //@   mode bv
 //@   requires len(partitions) >= 1
 //@   let cs = ite(old(rr.ChunkSize) < 1, 1, old(rr.ChunkSize))
@@ -45,6 +46,7 @@ package kafka
 //@   modifies rr.counter, rr.ChunkSize
 
 //@ func (*RoundRobin).balance
+//@   option sequential
 //@   mode bv
 //@   requires len(partitions) >= 1
 //@   let cs = ite(old(rr.ChunkSize) < 1, 1, old(rr.ChunkSize))
@@ -54,6 +56,7 @@ package kafka
 //@   modifies rr.counter, rr.ChunkSize
 
 //@ func (*Hash).Balance
+//@   option sequential
 //@   mode bv
 //@   requires len(partitions) >= 1 && len(partitions) < 1<<31
 //@   requires forall k :: 0 <= k && k < len(partitions) ==> partitions[k] == k
@@ -62,6 +65,7 @@ package kafka
 //@   modifies h.rr.counter, h.rr.ChunkSize, region($hstate)
 
 //@ func (*ReferenceHash).Balance
+//@   option sequential
 //@   mode bv
 //@   requires len(partitions) >= 1 && len(partitions) < 1<<31
 //@   requires forall k :: 0 <= k && k < len(partitions) ==> partitions[k] == k
@@ -80,6 +84,7 @@ package kafka
 //@   loop 0 decreases len(partitions) - rangeindex
 
 //@ func (*LeastBytes).Balance
+//@   option sequential
 //@   mode bv
 //@   requires len(partitions) >= 1
 //@   requires forall k :: 0 <= k && k < len(partitions) ==> partitions[k] == k
@@ -96,13 +101,14 @@ package kafka
 //@   loop 0 invariant forall j :: 0 <= j && j <= rangeindex + 1 && j < len(lb.counters) ==> minBytes <= lb.counters[j].bytes
 //@   loop 0 decreases len(lb.counters) - rangeindex
 
-//@ property C19
+//@ property C19 C10
 
 //@ func (*Conn).ReadOffsets
 //@   trusted ASSUMPTION about the broker: the first and last offsets it reports are ordered and non-negative (the exchange itself is covered by C04/C06/C11)
 //@   ensures err == nil ==> 0 <= first && first <= last
 
 //@ func (*Conn).Seek
+//@   option sequential
 //@   mode bv
 //@   let dont = (whence & SeekDontCheck) != 0
 //@   let w = whence &^ SeekDontCheck
@@ -151,7 +157,7 @@ package kafka
 //@   loop 0 modifies elems(commits)
 //@   loop 0 decreases len(msgs) - rangeindex
 
-//@ property C08 C07 C01
+//@ property C08 C07 C01 C10
 
 //@ func (*Message).totalSize
 //@   pure
@@ -321,7 +327,7 @@ package kafka
 //@   loop 0 after forall k :: 0 <= k && k < len(msgs) ==> 0 <= int64(msgs[k].totalSize()) && int64(msgs[k].totalSize()) <= w.batchBytes()
 //@   loop 1 invariant forall k :: 0 <= k && k < len(msgs) ==> 0 <= int64(msgs[k].totalSize()) && int64(msgs[k].totalSize()) <= w.batchBytes()
 
-//@ property C15
+//@ property C15 C10
 
 //@ type Generation
 //@   closeonly done, joined
@@ -345,7 +351,7 @@ package kafka
 //@   option noframe
 //@   modifies region(Generation.closed), region(Generation.routines), region($closed)
 
-//@ property C11 C06
+//@ property C11 C06 C10
 
 //@ func (*Conn).enter
 //@   trusted atomic in-flight counter
@@ -387,3 +393,13 @@ package kafka
 //@   modifies heap
 //@   callsite iface Conn.Close requires !spec.iskafka(err)
 //@   ensures result != nil && !spec.iskafka(result) ==> c.conn.$cclosed
+
+// ---- guarded-by declarations (C10): every access to these fields needs the named lock in the path's lockset ----
+//@ lock (*Conn).wlock as c
+//@   guards correlationID
+//@ lock (*Conn).mutex as c
+//@   guards offset
+//@ lock (*RoundRobin).mutex as rr
+//@   guards counter, ChunkSize
+//@ lock (*LeastBytes).mutex as lb
+//@   guards counters
